@@ -29,7 +29,7 @@ ASSUMPTIONS = [
     "user-visible values of user controllers are not claimed, stored values are",
 ]
 REQUIRED_LABELS = {
-    "quick": ["depth_0", "depth_1", "depth_2", "count_0", "count_96", "count_mid", "map_enum", "map_bool", "map_negative_range", "label_set", "ctx_synth", "ctx_project", "user_value_set", "types_rederived", "label_beyond_count", "count_lowered"],
+    "quick": ["depth_0", "depth_1", "depth_2", "count_0", "count_96", "count_mid", "map_enum", "map_bool", "map_negative_range", "label_set", "ctx_synth", "ctx_project", "user_value_set", "types_rederived", "label_beyond_count", "count_lowered", "user_ctl_midi_binding"],
     "thorough": ["depth_0", "depth_1", "depth_2", "depth_3", "count_0", "count_96", "count_95", "count_27", "count_mid", "map_enum", "map_bool", "map_negative_range", "map_dependent", "label_set", "ctx_synth", "ctx_project", "user_value_set", "types_rederived"],
 }
 INNER_TYPES = ["Amplifier", "Adsr", "Lfo", "Filter", "Generator", "Delay", "MultiSynth", "VorbisPlayer", "Compressor"]
@@ -93,6 +93,9 @@ def meta_spec(draw, depth, in_project):
         labels = [[i, draw(vs.text_no_nul(12))] for i in lidx]
     rederive = draw(st.booleans())
     payload = {"project": inner, "count": n, "mappings": maps, "labels": labels}
+    if n:
+        cidx = draw(st.lists(st.sampled_from(sorted({0, n - 1, n // 2})), max_size=2, unique=True))
+        payload["user_cmid"] = [[i] + draw(build.cmid_entry) for i in cidx]
     # labels left on controllers beyond the count (e.g. after the count was reduced) must not be written
     beyond = []
     if n < 96 and draw(st.booleans()):
@@ -173,6 +176,8 @@ def labels_of(ms):
             labels.add("map_dangling")
     if ms["payload"]["labels"]:
         labels.add("label_set")
+    if ms["payload"].get("user_cmid"):
+        labels.add("user_ctl_midi_binding")
     if ms.get("rederive"):
         labels.add("types_rederived")
     if ms.get("user_sets"):
